@@ -19,7 +19,12 @@ def chi2(chk):
     rng = np.random.default_rng(chk.seed + 909)
     w = 16
     nkeys = 6000 if chk.tier == "quick" else 20000
-    keys = [rng.bytes(int(rng.integers(1, 12))) for _ in range(nkeys)]
+    # distinct keys (a repeated key repeats its whole column tuple, which is dependence of the
+    # *sample*, not of the hash: 1- and 2-byte keys made the thorough tier alarm falsely)
+    seen = set()
+    while len(seen) < nkeys:
+        seen.add(rng.bytes(int(rng.integers(4, 17))))
+    keys = sorted(seen)
     worst, where = 0.0, None
     for depth in ((3, 5, 8) if chk.tier == "quick" else range(2, 9)):
         s = cm.CountMinLinear(w, depth)
